@@ -847,9 +847,9 @@ def run(ctx: Ctx) -> None:
         'grid + sample: every field of M-Fields (each with its own text template: static route, `attributes … nlri`, flow, IPv6 flow, vpls) x '
         'boundary values {0, 1, limit-2, limit-1, limit, limit+1, 2*limit, 256*limit} + {2^8, 2^12, 2^16, 2^20, 2^24, 2^32, 2^63, 2^64, 2^96, 10^30 and neighbours} '
         '+ odd value texts {negative, non-numeric, empty, hex, float, plus sign, leading zeros, unicode digit, exponent, separator}; counts around the extended-length switch, 4096 and the 65535 limit; plus a seeded random sample per field (magnitude-uniform) below the limit, above it and below zero; the real accept / refuse decision of every numeric token is compared with the model\'s `accepts` (the generated range check) as well as with `fits`; '
-        'each through Configuration.parse_route_text, API.api_*, the API command handler and (boundary subset; all in thorough) a configuration file; accepted definitions encoded and decoded on 16 session shapes. '
+        'each through Configuration.parse_route_text, API.api_*, the API command handler and (boundary subset; all in thorough) a configuration file; accepted definitions encoded and decoded on 18 session shapes (16 with AIGP enabled, one eBGP shape without it first and last, the same Route objects throughout). '
         'junk: hand-written structural junk; pairs: every keyword of the route grammar x every value of a 30-value vocabulary, bare and bracketed; soup: seeded random token sequences over the same vocabulary; failures shrunk token by token and filed under the last keyword of the shrunk text. '
-        'a grid case is non-trivial when the value was accepted, fits, was encoded on all 16 shapes and both decoders returned the written value; '
+        'a grid case is non-trivial when the value was accepted, fits, was encoded on all the shapes and both decoders returned the written value; '
         'a junk/soup case is non-trivial when it was refused with a message or accepted and encoded on every shape; distinct = (field, template, value) resp. distinct text'
     )
     if not ctx.driver_ok:
